@@ -19,7 +19,7 @@
 From Coq Require Import List ZArith Bool.
 From SVC Require Import Base.AMap Base.Res Base.Dec Model.Types Model.Pricing
   Model.Handlers Model.EndBlock Model.Step Proofs.Inv Proofs.TraceLemmas Proofs.TraceSettle
-  Proofs.TraceMoney Proofs.DecProofs Proofs.GapC02 Proofs.GapC02b.
+  Proofs.TraceMoney Proofs.DecProofs Proofs.StepSpecs_deposit Proofs.GapC02 Proofs.GapC02b Proofs.GapC02c.
 Import ListNotations.
 Open Scope Z_scope.
 
@@ -231,3 +231,48 @@ Print Assumptions C02_active_not_overdue.
 Theorem C02_tax_is_floor : forall n r, 0 <= n -> 0 <= r -> mul_trunc n r = (n * r) / PREC.
 Proof. exact DecProofs.mul_trunc_floor. Qed.
 Print Assumptions C02_tax_is_floor.
+
+(* per-step attribution of every event that mentions a request (audit facets 4, 6): for a step
+   of a reachable state, an event e about request r among the appended events d comes
+     - from EndBlock, and is an EvIssue of a request stamped with the height of this block, or
+       an expiry event of a request that was stored, still active and AT ITS EXPIRY HEIGHT:
+       EvExpire r, and outside super mode EvRefund r (consumer of its context) (its fee) or
+       EvSlash r (service of its context, its provider) _;
+     - or from an accepted response to r: EvRespond r, and, if the output is non-empty and
+       schema-invalid, EvRefund r consumer fee / EvSlash r binding (fraction of its deposit),
+       else EvEarn r provider (fee - tax) / EvTax r tax with tax = mul_trunc fee (p_tax cfg);
+     - from no other operation. *)
+Theorem C02_step_request_events : forall cfg s o s' d e r,
+  wf_cfg cfg -> Reach cfg s -> wf_op s o -> handle cfg s o = Ok s' ->
+  log s' = d ++ log s -> In e d -> ev_rid e = Some r ->
+  ((exists dt, o = OEndBlock dt)
+   /\ ((exists p c f, e = EvIssue r p c f /\ rid_height r = height s)
+       \/ (exists q rc, get r (reqs s) = Some q /\ r_active q = true /\ r_exp q = height s
+              /\ get (rid_ctx r) (ctxs s) = Some rc
+              /\ (e = EvExpire r
+                  \/ (c_super rc = false
+                      /\ (e = EvRefund r (c_cons rc) (r_fee q)
+                          \/ exists amt, e = EvSlash r (c_svc rc, r_prov q) amt))))))
+  \/ (exists w c out v, o = ORespond r w c out v true
+        /\ exists q rc, get r (reqs s) = Some q /\ r_active q = true
+             /\ get (rid_ctx r) (ctxs s) = Some rc
+             /\ (e = EvRespond r
+                 \/ if negb (out =? 0) && negb v
+                    then e = EvRefund r (c_cons rc) (r_fee q)
+                         \/ e = EvSlash r (c_svc rc, r_prov q)
+                                 (mul_trunc (dep_at s (c_svc rc, r_prov q)) (p_slash cfg))
+                    else e = EvEarn r (r_prov q) (r_fee q - mul_trunc (r_fee q) (p_tax cfg))
+                         \/ e = EvTax r (mul_trunc (r_fee q) (p_tax cfg)))).
+Proof. exact GapC02c.step_request_events. Qed.
+Print Assumptions C02_step_request_events.
+
+(* "in time": an expiry event is appended only by the EndBlock whose height is the expiry height
+   of the request, and only while the request is still active (so a request answered in its
+   expiry block, before EndBlock, does not expire: C02_settle_once) *)
+Theorem C02_expire_only_at_expiry : forall cfg s o s' d r,
+  wf_cfg cfg -> Reach cfg s -> wf_op s o -> handle cfg s o = Ok s' ->
+  log s' = d ++ log s -> In (EvExpire r) d ->
+  (exists dt, o = OEndBlock dt)
+  /\ exists q, get r (reqs s) = Some q /\ r_active q = true /\ r_exp q = height s.
+Proof. exact GapC02c.expire_only_at_expiry. Qed.
+Print Assumptions C02_expire_only_at_expiry.
